@@ -9,6 +9,7 @@ handler rejects whatever an independent expat run rejects.
 import copy
 import io
 import json
+import os
 import random
 import re
 import sys
@@ -584,7 +585,7 @@ def apply_json_struct_fault(value, f):
                 return value, False
             d = _get(value, dpaths[f["idx"] % len(dpaths)])
             if k == "key_add":
-                d[["bogus", "qname", "value", "type", ""][f["val"] % 5]] = junk
+                d[["bogus", "qname", "value", "type", "", 7, None, 1.5][f["val"] % 8]] = junk  # a loader may hand over non-string keys
                 return value, True
             if not d:
                 return value, False
@@ -604,7 +605,7 @@ def apply_json_struct_fault(value, f):
 # ---------------------------------------------------------------- case generation
 def gen_case(seed):
     rng = random.Random(seed)
-    decoder = rng.choice(["xml-lxml", "xml-native", "xml-lxml", "xml-native", "xml-lxml", "xml-native", "json", "json", "dict", "dict", "xml-tree-lxml", "xml-tree-native", "xml-src-lxml", "xml-src-native"])
+    decoder = rng.choice(["xml-lxml", "xml-native", "xml-lxml", "xml-native", "xml-lxml", "xml-native", "json", "json", "dict", "dict", "xml-tree-lxml", "xml-tree-native", "xml-src-lxml", "xml-src-native", "xml-path-lxml", "xml-path-native"])
     if decoder.startswith("xml"):
         name = rng.choice(sorted(Store.xml))
         n = len(Store.xml[name][0])
@@ -772,6 +773,34 @@ def declaration_wellformed(payload):
     return re.fullmatch(rb"1\.[0-9]+", version) is not None
 
 
+PATH_SUFFIXES = [".xml", "", ".gz", ".xml.gz", ".zip", ".bz2", ".xz", ".json", ".XML", ".xml~", ".dtd", ".xsd", ".html", ".txt", ".bak"]
+_scratch = {}
+
+
+def stored_file(payload, case):
+    """Write the faulted document to this process's scratch file (outside /repo and /verif) under a seeded suffix."""
+    import pathlib
+    import tempfile
+    import zlib
+
+    if "dir" not in _scratch:
+        base = "/dev/shm" if os.path.isdir("/dev/shm") else None
+        _scratch["dir"] = tempfile.mkdtemp(prefix="xsv-c15-", dir=base)
+        import atexit
+        import shutil
+
+        atexit.register(shutil.rmtree, _scratch["dir"], True)
+    suffix = PATH_SUFFIXES[zlib.crc32(json.dumps(case, sort_keys=True, default=str).encode()) % len(PATH_SUFFIXES)]
+    old = _scratch.get("file")
+    if old and os.path.exists(old):
+        os.remove(old)
+    path = os.path.join(_scratch["dir"], "doc" + suffix)
+    with open(path, "wb") as f:
+        f.write(payload)
+    _scratch["file"] = path
+    return pathlib.Path(path)
+
+
 def build_tree(payload, dec):
     try:
         if dec.endswith("lxml"):
@@ -795,7 +824,7 @@ def make_decoder(case, context):
     dec = case["decoder"]
     if dec.startswith("xml-tree-"):
         return parsers.TreeParser(config=cfg, context=context, handler=O._handlers()[dec.split("-")[2]])
-    if dec.startswith("xml-src-"):
+    if dec.startswith(("xml-src-", "xml-path-")):
         return parsers.XmlParser(config=cfg, context=context, handler=O._handlers()[dec.split("-")[2]])
     if dec == "xml-lxml":
         return parsers.XmlParser(config=cfg, context=context, handler=O._handlers()["lxml"])
@@ -907,6 +936,9 @@ def run_case(case, context, meter, base_steps):
             warnings.simplefilter("ignore")
             if dec == "dict":
                 result = tool.decode(payload, clazz)
+            elif dec.startswith("xml-path-"):
+                # the document is a file the library opens itself; its name says nothing about its content
+                result = tool.from_path(stored_file(payload, case), clazz)
             elif dec.startswith("xml-src-"):
                 # the caller hands over an already built tree (comments, processing instructions and unexpanded
                 # entity references kept); bytes no tree can be built from are not a case for this decoder
